@@ -14,7 +14,7 @@ REQUIRED = {"bus_bytes": 500, "peer_read": 500, "buffer_unmodified": 500, "rejec
 ASSUMPTIONS = ["configurations respect the documented ARD/data-rate constraint",
                "with auto-ack off or ask_no_ack, a payload lost because the peer's 3-level RX "
                "FIFO was full is radio behaviour, not judged (counted separately)"]
-BUDGET = {"quick": 150, "thorough": 420}
+BUDGET = {"quick": 480, "thorough": 900}
 KW = {"tx_kind": "full", "rx_kind": "full"}
 
 
